@@ -309,6 +309,49 @@ func c07Cases(tier string, emit func(c c07Case)) {
 			}
 		}
 	}
+	// 7. CRL issuer names which mirror the shape and attribute types of a chain certificate's subject, every attribute
+	//    value re-typed (a name is attacker-chosen bytes: values need not be strings)
+	for _, id := range []*world.Ident{p.CA, p.Root, p.OtherCA} {
+		var seq pkix.RDNSequence
+		if _, err := asn1.Unmarshal(id.Cert.RawSubject, &seq); err != nil {
+			continue
+		}
+		for ri := range seq {
+			for ai := range seq[ri] {
+				text, _ := seq[ri][ai].Value.(string)
+				values := map[string][]byte{
+					"octet-string": append([]byte{0x04, byte(len(text))}, text...), "integer": {0x02, 0x01, 0x05}, "big-integer": append([]byte{0x02, byte(len(text))}, text...),
+					"null": {0x05, 0x00}, "boolean": {0x01, 0x01, 0xff}, "bit-string": {0x03, 0x02, 0x00, 0x55}, "sequence": {0x30, 0x03, 0x0c, 0x01, 0x41}, "set": {0x31, 0x00},
+					"utctime": append([]byte{0x17, 0x0d}, "260102030405Z"...), "oid": {0x06, 0x03, 0x55, 0x04, 0x03}, "enumerated": {0x0a, 0x01, 0x01}, "context-0": {0x80, 0x01, 0x41},
+					"bmpstring": {0x1e, 0x04, 0x00, 0x41, 0x00, 0x42}, "teletex-latin1": {0x14, 0x03, 0x4d, 0xfc, 0x6c}, "universalstring": {0x1c, 0x04, 0x00, 0x00, 0x00, 0x41}, "numericstring": {0x12, 0x02, 0x31, 0x32}, "empty-utf8": {0x0c, 0x00},
+				}
+				var names []string
+				for k := range values {
+					names = append(names, k)
+				}
+				sort.Strings(names)
+				for _, vn := range names {
+					var rdns []byte
+					for rj := range seq {
+						var set []byte
+						for aj := range seq[rj] {
+							oid, _ := asn1.Marshal(seq[rj][aj].Type)
+							var val []byte
+							if rj == ri && aj == ai {
+								val = values[vn]
+							} else {
+								val, _ = asn1.Marshal(seq[rj][aj].Value)
+							}
+							atv := append(append([]byte{}, oid...), val...)
+							set = append(set, append([]byte{0x30, byte(len(atv))}, atv...)...)
+						}
+						rdns = append(rdns, append([]byte{0x31, byte(len(set))}, set...)...)
+					}
+					emit(c07Case{"issuer", append([]byte{0x30, byte(len(rdns))}, rdns...), fmt.Sprintf("issuer like %q rdn#%d value=%s", id.Cert.Subject.CommonName, ri, vn), false})
+				}
+			}
+		}
+	}
 	// deep nesting of context tags for GetGeneralNameType (recursion)
 	for _, depth := range []int{10, 100, 1000, 2000, 5000} {
 		var b []byte
@@ -397,6 +440,20 @@ func c07Run(c c07Case) (out c07Outcome) {
 			chains := core.NewCertificateChains([][]*x509.Certificate{{p.Stranger.Cert, &evil}}, nil)
 			iss, _ := asn1parser.ParseSubjectRDNSequence(p.CA.Cert)
 			_, err := core.FindCertificateIssuerCandidates(iss, &exts, x509.ECDSA, chains)
+			out.Result = errClass(err)
+		case "issuer":
+			// a CRL issuer name (attacker-chosen bytes) which the reader accepted, matched by name against the certificates
+			// of the chain and the trusted signers (no authority key identifier in the CRL)
+			iss, err := asn1parser.ParseRDNSequence(c.Data)
+			if err != nil {
+				out.Result = "err"
+				break
+			}
+			p := world.Std()
+			chains := core.NewCertificateChains(world.Chain(p.Stranger, p.CA, p.Root), []*x509.Certificate{p.OtherCA.Cert, p.CARSA.Cert})
+			for _, alg := range []x509.PublicKeyAlgorithm{x509.ECDSA, x509.RSA} {
+				_, err = core.FindCertificateIssuerCandidates(iss, &[]pkix.Extension{}, alg, chains)
+			}
 			out.Result = errClass(err)
 		case "generalname":
 			g := extensionsupport.GeneralName{Raw: c.Data}
